@@ -407,8 +407,24 @@ mod verif_c05_frames_payload {
         assert!(written <= f.max_encoding_size(), "C05.frame.new_token.finding_len64.written_le_max_encoding_size");
     }
 
-    /// a reason phrase of 0..=4 ASCII bytes (valid UTF-8 by construction, so `from_utf8_lossy` must give it back)
-    fn any_reason() -> String {
+    /// byte-wise equality with an explicit loop (no memcmp on zero-length slices)
+    fn same_bytes(a: &[u8], b: &[u8]) -> bool {
+        if a.len() != b.len() {
+            return false;
+        }
+        let mut i = 0;
+        while i < a.len() {
+            if a[i] != b[i] {
+                return false;
+            }
+            i += 1;
+        }
+        true
+    }
+
+    /// a reason phrase of 0..=4 ASCII bytes (valid UTF-8 by construction, so `from_utf8_lossy` must give it back);
+    /// returns the string and a copy of its bytes
+    fn any_reason() -> (String, [u8; 4], usize) {
         let store: [u8; 4] = kani::any();
         let l: usize = kani::any();
         kani::assume(l <= 4);
@@ -419,28 +435,7 @@ mod verif_c05_frames_payload {
             v.push(store[i]);
             i += 1;
         }
-        unsafe { String::from_utf8_unchecked(v) }
-    }
-
-    #[kani::proof]
-    #[kani::unwind(10)]
-    #[kani::stub(alloc::fmt::format, fmt_stub)]
-    #[kani::stub(crate::varint::be_varint, be_varint_spec)]
-    #[kani::stub(alloc::string::String::from_utf8_lossy, lossy_stub)]
-    fn app_close_roundtrip() {
-        let f = ConnectionCloseFrame::new_app(vi(), any_reason());
-        let r = roundtrip::<_, 20>(&f, FrameType::ConnectionClose(Layer::App), |fr| match fr {
-            Frame::Close(g) => Some(g),
-            _ => None,
-        });
-        assert!(r.size_exact, "C05.frame.app_close.written_eq_encoding_size");
-        assert!(r.size_le_max, "C05.frame.app_close.written_le_max_encoding_size");
-        assert!(r.type_of_value && r.type_roundtrip, "C05.frame.app_close.type_roundtrip");
-        assert!(r.decodes, "C05.frame.app_close.decodes");
-        assert!(r.consumes_exactly, "C05.frame.app_close.consumes_exactly");
-        assert!(r.value_equal, "C05.frame.app_close.value_equal");
-        kani::cover!(r.written == 1 + 8 + 1 + 4, "C05.frame.app_close.reach_max");
-        kani::cover!(r.written == 3, "C05.frame.app_close.reach_empty_reason");
+        (unsafe { String::from_utf8_unchecked(v) }, store, l)
     }
 
     /// every transport error code RFC 9000 §20.1 defines (plus the project's NoViablePath 0x10)
@@ -481,18 +476,89 @@ mod verif_c05_frames_payload {
         }
     }
 
+    /// sizes of CONNECTION_CLOSE (encoder and size functions only; cheap, so both layers in one harness)
     #[kani::proof]
-    #[kani::unwind(10)]
+    #[kani::unwind(7)]
+    fn close_sizes() {
+        let (reason, _, l) = any_reason();
+        let f = ConnectionCloseFrame::new_app(vi(), reason);
+        let (_buf, written) = verif_enc!(&f, 20);
+        assert!(written == f.encoding_size(), "C05.frame.app_close.sizes.written_eq_encoding_size");
+        assert!(written <= f.max_encoding_size(), "C05.frame.app_close.sizes.written_le_max_encoding_size");
+        kani::cover!(written == 1 + 8 + 1 + 4 && l == 4, "C05.frame.app_close.sizes.reach_max");
+
+        // known findings excluded here (pinned by quic_close_ext_frame_type_* below): a "Frame Type" field that is
+        // not a one-byte RFC 9000 frame type (the project's own 4-byte types and ErrorFrameType::Ext)
+        let (reason, _, l) = any_reason();
+        let f = ConnectionCloseFrame::new_quic(any_error_kind(), any_v1_frame_type().into(), reason);
+        let (_buf, written) = verif_enc!(&f, 20);
+        assert!(written == f.encoding_size(), "C05.frame.quic_close.sizes.written_eq_encoding_size");
+        assert!(written <= f.max_encoding_size(), "C05.frame.quic_close.sizes.written_le_max_encoding_size");
+        kani::cover!(written == 1 + 2 + 1 + 1 + 4 && l == 4, "C05.frame.quic_close.sizes.reach_crypto_error_max");
+        kani::cover!(written == 4, "C05.frame.quic_close.sizes.reach_min");
+    }
+
+    #[kani::proof]
+    #[kani::unwind(7)]
+    #[kani::stub(alloc::fmt::format, fmt_stub)]
+    #[kani::stub(crate::varint::be_varint, be_varint_spec)]
+    #[kani::stub(alloc::string::String::from_utf8_lossy, lossy_stub)]
+    fn app_close_roundtrip() {
+        let code = vi();
+        let (reason, rb, rl) = any_reason();
+        let f = ConnectionCloseFrame::new_app(code, reason);
+        let (buf, written) = verif_enc!(&f, 20);
+        let r = Rt {
+            written,
+            size_exact: written == f.encoding_size(),
+            size_le_max: written <= f.max_encoding_size(),
+            type_of_value: f.frame_type() == FrameType::ConnectionClose(Layer::App),
+            type_roundtrip: false,
+            decodes: false,
+            consumes_exactly: false,
+            value_equal: false,
+        };
+        // field-wise equality (the derived `==` on Cow<str> goes through memcmp models that are needlessly expensive)
+        let r = decode(&buf, written, FrameType::ConnectionClose(Layer::App), r, |fr| match fr {
+            Frame::Close(ConnectionCloseFrame::App(g)) => g.error_code() == code.into_u64() && same_bytes(g.reason().as_bytes(), &rb[..rl]),
+            _ => false,
+        });
+        assert!(r.size_exact, "C05.frame.app_close.written_eq_encoding_size");
+        assert!(r.size_le_max, "C05.frame.app_close.written_le_max_encoding_size");
+        assert!(r.type_of_value && r.type_roundtrip, "C05.frame.app_close.type_roundtrip");
+        assert!(r.decodes, "C05.frame.app_close.decodes");
+        assert!(r.consumes_exactly, "C05.frame.app_close.consumes_exactly");
+        assert!(r.value_equal, "C05.frame.app_close.value_equal");
+        kani::cover!(r.written == 1 + 8 + 1 + 4, "C05.frame.app_close.reach_max");
+        kani::cover!(r.written == 3, "C05.frame.app_close.reach_empty_reason");
+    }
+
+    #[kani::proof]
+    #[kani::unwind(7)]
     #[kani::stub(alloc::fmt::format, fmt_stub)]
     #[kani::stub(crate::varint::be_varint, be_varint_spec)]
     #[kani::stub(alloc::string::String::from_utf8_lossy, lossy_stub)]
     fn quic_close_roundtrip() {
-        // known findings excluded here (pinned by quic_close_ext_frame_type_* below): a "Frame Type" field that is
-        // not a one-byte RFC 9000 frame type (the project's own 4-byte types, DATAGRAM and ErrorFrameType::Ext)
-        let f = ConnectionCloseFrame::new_quic(any_error_kind(), any_v1_frame_type().into(), any_reason());
-        let r = roundtrip::<_, 20>(&f, FrameType::ConnectionClose(Layer::Quic), |fr| match fr {
-            Frame::Close(g) => Some(g),
-            _ => None,
+        let kind = any_error_kind();
+        let fty: crate::error::ErrorFrameType = any_v1_frame_type().into();
+        let (reason, rb, rl) = any_reason();
+        let f = ConnectionCloseFrame::new_quic(kind, fty, reason);
+        let (buf, written) = verif_enc!(&f, 20);
+        let r = Rt {
+            written,
+            size_exact: written == f.encoding_size(),
+            size_le_max: written <= f.max_encoding_size(),
+            type_of_value: f.frame_type() == FrameType::ConnectionClose(Layer::Quic),
+            type_roundtrip: false,
+            decodes: false,
+            consumes_exactly: false,
+            value_equal: false,
+        };
+        let r = decode(&buf, written, FrameType::ConnectionClose(Layer::Quic), r, |fr| match fr {
+            Frame::Close(ConnectionCloseFrame::Quic(g)) => {
+                g.error_kind() == kind && g.frame_type() == fty && same_bytes(g.reason().as_bytes(), &rb[..rl])
+            }
+            _ => false,
         });
         assert!(r.size_exact, "C05.frame.quic_close.written_eq_encoding_size");
         assert!(r.size_le_max, "C05.frame.quic_close.written_le_max_encoding_size");
@@ -506,31 +572,25 @@ mod verif_c05_frames_payload {
 
     /// confined to the recorded finding: CONNECTION_CLOSE(0x1c) naming one of the project's own frames (4-byte type
     /// 0x3d7e90..0x3d7e96, what `From<frame::Error> for QuicError` produces for e.g. ADD_ADDRESS in an Initial packet):
-    /// `encoding_size()` counts 1 byte for the Frame Type field, `put_frame` writes 4.
+    /// `encoding_size()` counts 1 byte for the Frame Type field, `put_frame` writes 4.  (encoder and sizes only)
     #[kani::proof]
-    #[kani::unwind(10)]
-    #[kani::stub(alloc::fmt::format, fmt_stub)]
-    #[kani::stub(crate::varint::be_varint, be_varint_spec)]
-    #[kani::stub(alloc::string::String::from_utf8_lossy, lossy_stub)]
+    #[kani::unwind(7)]
     fn quic_close_ext_frame_type_size() {
         let f = ConnectionCloseFrame::new_quic(
             crate::error::ErrorKind::FrameEncoding,
             FrameType::AddAddress(Family::V4).into(),
             String::new(),
         );
-        let r = roundtrip::<_, 20>(&f, FrameType::ConnectionClose(Layer::Quic), |fr| match fr {
-            Frame::Close(g) => Some(g),
-            _ => None,
-        });
-        assert!(r.decodes && r.value_equal, "C05.frame.quic_close.finding_ext_frame_type_size.sup.roundtrips");
-        assert!(r.size_exact, "C05.frame.quic_close.finding_ext_frame_type_size.written_eq_encoding_size");
+        let (_buf, written) = verif_enc!(&f, 20);
+        kani::cover!(written == 7, "C05.frame.quic_close.finding_ext_frame_type_size.reach_7_bytes_written");
+        assert!(written == f.encoding_size(), "C05.frame.quic_close.finding_ext_frame_type_size.written_eq_encoding_size");
     }
 
     /// confined to the recorded finding: CONNECTION_CLOSE(0x1c) whose Frame Type field is a type this endpoint does
     /// not know (`ErrorFrameType::Ext`, e.g. a peer's extension frame): it is encoded, but `be_quic_close_frame`
     /// only accepts known frame types and refuses the whole frame.
     #[kani::proof]
-    #[kani::unwind(10)]
+    #[kani::unwind(7)]
     #[kani::stub(alloc::fmt::format, fmt_stub)]
     #[kani::stub(crate::varint::be_varint, be_varint_spec)]
     #[kani::stub(alloc::string::String::from_utf8_lossy, lossy_stub)]
@@ -540,12 +600,11 @@ mod verif_c05_frames_payload {
             crate::error::ErrorFrameType::Ext(VarInt::from_u32(0x1f)),
             String::new(),
         );
-        let r = roundtrip::<_, 20>(&f, FrameType::ConnectionClose(Layer::Quic), |fr| match fr {
-            Frame::Close(g) => Some(g),
-            _ => None,
-        });
-        assert!(r.size_exact && r.type_roundtrip, "C05.frame.quic_close.finding_unknown_frame_type.sup.encodes");
-        assert!(r.decodes, "C05.frame.quic_close.finding_unknown_frame_type.decodes");
+        let (buf, written) = verif_enc!(&f, 20);
+        assert!(written == 4 && buf[0] == 0x1c && buf[1] == 0x0a && buf[2] == 0x1f && buf[3] == 0, "C05.frame.quic_close.finding_unknown_frame_type.sup.encodes");
+        let bytes: [u8; 4] = [0x0a, 0x1f, 0x00, 0x00];
+        let res = complete_frame(FrameType::ConnectionClose(Layer::Quic), Bytes::new())(&bytes[..3]);
+        assert!(res.is_ok(), "C05.frame.quic_close.finding_unknown_frame_type.decodes");
     }
 
     // ------------------------------------------------------------------------------------------------------
